@@ -58,15 +58,11 @@ func hx(xs ...float64) string {
 }
 
 type corpusT struct {
-	Blends []struct {
-		Fn      string  `json:"fn"`
-		K, A, B float64 `json:"k"`
-	} `json:"-"`
-	PowMin [][3]float64 `json:"powmin"`      // k, a, b: the known finding (PowMin removes material)
-	Cache0 [][2]float64 `json:"cache_zero"`  // points queried as (+0 / -0) pairs through a cache of RotateCopy2D
-	Voxel  [][4]float64 `json:"voxel_thin"`  // box size x y z, meshCells: thin boxes (0 cells per axis before the fix)
-	Loft   [][3]float64 `json:"loft_flat"`   // height, round (= height/2), z
-	Revolve []float64   `json:"revolve_theta"`
+	PowMin  [][3]float64 `json:"powmin"`     // k, a, b: the known finding (PowMin removes material)
+	Cache0  [][2]float64 `json:"cache_zero"` // points queried as (+0 / -0) pairs through a cache of RotateCopy2D
+	Voxel   [][4]float64 `json:"voxel_thin"` // box size x y z, meshCells: thin boxes (0 cells per axis before the fix)
+	Loft    [][3]float64 `json:"loft_flat"`  // height, round (= height/2), z
+	Revolve []float64    `json:"revolve_theta"`
 }
 
 func check(c *Ctx, r *Report) error {
